@@ -475,6 +475,14 @@ class Gen:
                 # the application builds the object first and fills it in
                 # afterwards, attribute by attribute
                 d['via_setattr'] = True
+                if k == 'header' and r.random() < 0.5:
+                    # values the constructor refuses but the encoder (which
+                    # does not validate properties) accepts, as they arise
+                    # when a peer's header is relayed or edited in place
+                    if r.random() < 0.6:
+                        d['props']['delivery_mode'] = r.choice([0, 3, 200])
+                    else:
+                        d['props']['cluster_id'] = 'c%d' % r.randint(1, 9)
             return d
         if k == 'protocol':
             return {'k': 'protocol',
